@@ -204,3 +204,24 @@ def _re_sub(run, args, kwargs, node):
 
 
 REG.stub("re.sub", _re_sub)
+
+
+# ---------------------------------------------------------------------------------------------------------------
+# CONSTANT pattern .search(s): A-RE - a match object is returned exactly when some substring of s is a word of the
+# pattern's language (translated from the source; anchors / look-around are outside the translatable subset -> UNDECIDED)
+OMATCH = TOpt(MATCH)
+
+
+def const_search(run, obj, args, kwargs, node):
+    s = run.coerce(args[0], TStr).t
+    lang = regex_lang(obj.obj)
+    m = z3.FreshConst(OMATCH.sort(), "re_search")
+    found = z3.InRe(s, z3.Concat(z3.Full(z3.ReSort(z3.StringSort())), lang, z3.Full(z3.ReSort(z3.StringSort()))))
+    g = OMATCH.get(m)
+    st, en, tx = MATCH.proj(g, 0), MATCH.proj(g, 1), MATCH.proj(g, 2)
+    run.assume(z3.And(OMATCH.is_none(m) == z3.Not(found),
+                      z3.Implies(z3.Not(OMATCH.is_none(m)), z3.And(0 <= st, st <= en, en <= z3.Length(s), tx == z3.SubString(s, st, en - st), z3.InRe(tx, lang)))))
+    return Val(OMATCH, m)
+
+
+REG.stub(("method", "conc:regex", "search"), const_search)
